@@ -249,7 +249,8 @@ func logThrough(rec *plainRecorder, o *slog.HandlerOptions, n node, r slog.Recor
 	want, ok := refLine(o, r, n.acc)
 	before := len(rec.writes)
 	var herr error
-	p, pv := mon.Catch(func() { herr = n.h.Handle(context.Background(), r) })
+	// a record is written whatever state its context is in (loggers are called on the way out of cancelled requests)
+	p, pv := mon.Catch(func() { herr = n.h.Handle(ctxPool[int(ctxN.Add(1))%len(ctxPool)], r) })
 	if !ok {
 		// the reference panics on this attribute: the hybrid handler inherits that from the text layer
 		return "", false
@@ -265,6 +266,20 @@ func logThrough(rec *plainRecorder, o *slog.HandlerOptions, n node, r slog.Recor
 	}
 	return judgeWrite(rec.writes[before], r.Level, want), true
 }
+
+var ctxN atomic.Int64
+
+var ctxPool = func() []context.Context {
+	cancelled, cancel := context.WithCancel(context.Background())
+	cancel()
+	expired, cancel2 := context.WithDeadline(context.Background(), time.Unix(1, 0))
+	_ = cancel2
+	caused, cancel3 := context.WithCancelCause(context.WithValue(context.Background(), ctxPoolKey{}, 1))
+	cancel3(errors.New("request aborted"))
+	return []context.Context{context.Background(), cancelled, context.TODO(), expired, caused}
+}()
+
+type ctxPoolKey struct{}
 
 type seqCase struct {
 	Opt    int   `json:"options"`
